@@ -638,6 +638,27 @@ fn op_stdcheck(_req: &J) -> J {
             out.push(format!("join {:?}", a.iter().map(|x| format!("s{}", x)).join("-")));
         }
     }
+    for x in [0.0f64, -0.0, 1.0, -1.5, 0.1, 0.1 + 0.2, 1e21, 1e-7, 123456789012345680000.0, 5e-324, 1.7976931348623157e308, 9007199254740993.0, 1e15, 1e16, 0.000001, 1234.5678, f64::NAN, f64::INFINITY, f64::NEG_INFINITY, 2.5e-10, 4.35, 100.0, 1e22, 1e23] {
+        out.push(format!("display {}", x));
+    }
+    for t in ["1", "-1", "+1", "1.5", ".5", "5.", "1e3", "1E3", "1e+3", "1e-3", " 1", "1 ", "", ".", "-", "e5", "1e", "inf", "-inf", "infinity", "Infinity", "nan", "NaN", "-nan", "0x10", "1_000", "1.2.3", "--1", "1e400", "1e-400", "00012", "-.5e1", "١"] {
+        out.push(format!("parse {:?}", t.parse::<f64>().ok().map(|v| if v.is_nan() { "NaN".to_string() } else { format!("{:?}", v.to_bits()) })));
+    }
+    for s in ["", "abc", "a,b,,c", "  x y  ", "héllo", "aXXbXXXc", "line1\nline2\n", "a\tb c"] {
+        for p in ["", ",", "XX", "l", " "] {
+            if !p.is_empty() {
+                out.push(format!("split {:?}", s.split(p).collect::<Vec<_>>()));
+            }
+            out.push(format!("find {:?} {:?}", s.find(p), s.rfind(p)));
+            out.push(format!("strip {:?} {:?}", s.strip_prefix(p), s.strip_suffix(p)));
+            out.push(format!("contains {:?} {:?} {:?}", s.contains(p), s.starts_with(p), s.ends_with(p)));
+            out.push(format!("split_once {:?}", s.split_once(p)));
+        }
+        out.push(format!("trim {:?} {:?} {:?}", s.trim(), s.trim_start(), s.trim_end()));
+        out.push(format!("case {:?} {:?} {:?}", s.to_lowercase(), s.to_uppercase(), s.to_ascii_uppercase()));
+        out.push(format!("lines {:?}", s.lines().collect::<Vec<_>>()));
+        out.push(format!("chars {:?} {:?}", s.chars().count(), s.len()));
+    }
     let r: Result<i64, i64> = Ok(3);
     let e: Result<i64, i64> = Err(4);
     out.push(format!("result {:?} {:?} {:?} {:?} {:?} {:?} {:?} {:?}", r.and(e), e.and(r), r.or(e), e.or(r), r.map_or(9, |x| x + 1), e.map_or(9, |x| x + 1), r.is_ok_and(|x| x == 3), e.is_err_and(|x| x == 5)));
